@@ -182,8 +182,12 @@ class QueueSemantivaOrchestrator:
 
                 # If the user requested a Future, resolve it now
                 if jid in self.pending_futures:
-                    self.pending_futures[jid].set_result((msg.data, msg.context))
-                    del self.pending_futures[jid]
+                    fut = self.pending_futures.pop(jid)
+                    error = (msg.metadata or {}).get("error")
+                    if error:
+                        fut.set_exception(RuntimeError(f"job {jid} failed: {error}"))
+                    else:
+                        fut.set_result((msg.data, msg.context))
 
                 # Acknowledge receipt if transport supports it
                 try:
